@@ -106,6 +106,8 @@ pub struct Incarnation {
     pub raft_log: Arc<BufferedRaftLog<MemT>>,
     pub membership: Arc<hv::Membership<MemT>>,
     pub sm: Arc<ObservedSm<MemSm>>,
+    /// same state machine, reads recorded as served through the embedded client's handle
+    pub sm_embedded: Arc<ObservedSm<MemSm>>,
     pub smh: Arc<DefaultStateMachineHandler<MemT>>,
     pub lease: Arc<ReadLease>,
     pub cmd_tx: mpsc::Sender<ClientCmd>,
@@ -140,7 +142,7 @@ static GROUP_COUNTER: std::sync::atomic::AtomicU64 = std::sync::atomic::AtomicU6
 
 impl SimNode {
     pub fn new(id: u32, seed: u64, base_cfg: RaftNodeConfig, net: Net, oracle: OracleRef) -> SimNode {
-        let sm_obs = Arc::new(Mutex::new(SmObserver { seed, ..Default::default() }));
+        let sm_obs = Arc::new(Mutex::new(SmObserver { seed, oracle: Some(oracle.clone()), ..Default::default() }));
         SimNode {
             id,
             disk: SimDisk::new(id, seed),
@@ -446,10 +448,13 @@ async fn build(
     });
 
     let read_lease = raft_core.read_lease();
+    obs.lock().unwrap().lease = Some(read_lease.clone());
+    let sm_read_actor = Arc::new(state_machine.with_tag("read_actor"));
+    let sm_embedded = Arc::new(state_machine.with_tag("embedded"));
     let (read_tx, _read_actor) = hv::spawn_read_actor(
         node_config_arc.raft.read_actor.channel_capacity,
         Arc::clone(&read_lease),
-        state_machine.clone(),
+        sm_read_actor,
         node_config_arc.raft.read_actor.max_drain,
     );
 
@@ -485,6 +490,7 @@ async fn build(
         raft_log,
         membership,
         sm: state_machine,
+        sm_embedded,
         smh: state_machine_handler,
         lease: read_lease,
         cmd_tx,
